@@ -995,7 +995,7 @@ def CarryB (pos0 : Bool) (bom : Bom) (d : Bytes) (k : Nat) : Prop :=
 
 /-- … with the BOM state of the call, or with the BOM ruled out (the re-scan after the BOM arm's refill hit the end) -/
 def Carry (pos0 : Bool) (bom : Bom) (d : Bytes) (k : Nat) : Prop :=
-  CarryB pos0 bom d k ∨ CarryB pos0 .notPresent d k
+  CarryB pos0 bom d k ∨ (d.length < 3 ∧ CarryB pos0 .notPresent d k)
 
 /-- … or the call ended in `BufferFull` because the window already filled the buffer (capacity `cap`): the window is
 then a carry of the scan of a prefix of `d`; or the `Read` failed. -/
@@ -1040,7 +1040,7 @@ theorem Carry_skip {pos : Nat} {pre y : Bytes} {bom bom_s : Bom} (hs : Skips (po
     rw [hp] at h
     -- the carry does not depend on the BOM state here
     have hB : CarryB false bom_s y k := by
-      rcases h with h | ⟨w, b, hd, hh⟩
+      rcases h with h | ⟨_, w, b, hd, hh⟩
       · exact h
       · refine ⟨w, b, hd, ?_⟩
         have hind := fbLoop_false_scan w.length w .top 0 .notPresent bom_s (Nat.le_refl _)
@@ -1528,7 +1528,10 @@ theorem run_fallback_spec : ∀ (n : Nat) (r : Reader) (pos : Nat) (bom : Bom) (
         · left
           refine hfa.mono (Nat.le_refl _) ?_
           intro k hk
-          rcases hk with hk | hk <;> exact Or.inr hk
+          have hlen3 : d.length < 3 := by rw [hdw]; simp; omega
+          rcases hk with hk | hk
+          · exact Or.inr ⟨hlen3, hk⟩
+          · exact Or.inr hk
         · right; unfold OutOk at hok ⊢; rw [hspec]; exact hok
       · rw [hfill]
         simp only
